@@ -19,6 +19,7 @@ import traceback
 HOME = os.environ.get('VERIF_HOME') or os.path.dirname(os.path.dirname(os.path.abspath(__file__)))
 REPO = os.environ.get('VERIF_REPO', '/repo')
 LEAN_DIR = os.path.join(HOME, 'lean')
+OUT = os.environ.get('VERIF_OUT') or HOME     # evidence/ and replays/ live here (overridable for mutation trials)
 ALLOWED_AXIOMS = {'propext', 'Classical.choice', 'Quot.sound'}
 FORBIDDEN = re.compile(r'\bsorry\b|\badmit\b|^\s*axiom\s|native_decide|bv_decide|implemented_by|\bunsafe\s|maxHeartbeats\s+0\b')
 
@@ -344,7 +345,7 @@ def write_json(path, obj):
 
 
 def replay_path(pid, tag):
-    d = os.path.join(HOME, 'replays')
+    d = os.path.join(OUT, 'replays')
     os.makedirs(d, exist_ok=True)
     return os.path.join(d, '%s-%s.json' % (pid, tag))
 
